@@ -434,6 +434,14 @@ def r9_8(ctx):
         "command-prefix": (lambda m, l: m in ("str::starts_with", "String::starts_with") and any(x in ("$ ", "$") for x in l),
                            "an output line `$ y` is written as it is and (in a Cram document) read back as a further command"),
     }
+    # a fifth form exists only as long as the reader has it: EscapedRule::make drops a trailing ` (no-eol)` from the expression ("Cram-Compat")
+    from .c01 import _all_consts
+    mk = prog.impl_fn("EscapedRule", "RuleMaker", "make")
+    mk_lits = [c.as_str() for b_ in [mk] + prog.promoted_of(mk) for c, _ in _all_consts(b_) if c.as_str()]
+    if " (no-eol)" in mk_lits:
+        classes["escaped-no-eol-suffix"] = (lambda m, l: m in ("str::ends_with", "String::ends_with", "slice::ends_with") and any(x == " (no-eol)" for x in l),
+                                            "an output line that needs escaping and whose text ends in ` (no-eol)` is written as `<text> (no-eol) (escaped)`; EscapedRule::make drops that "
+                                            "suffix from the expression, so the expectation matches `<text>` and not the line it was written for")
     for key, (test, text) in sorted(classes.items()):
         ctx.check(has(test), "collision:" + key, bodies[0].where(),
                   "the writer tests rendered lines for the `%s` form before emitting them unmarked" % key,
